@@ -220,7 +220,8 @@ def move_staticmethod_static_scope(source: str, preserve: Collection[str]) -> st
                 ],
                 type_params=[],
                 returns=funcdef.returns,
-                lineno=classdef.lineno - 1,
+                # Before the class and its decorators, not inside whatever ends on the line above
+                lineno=min(node.lineno for node in (classdef, *classdef.decorator_list)),
                 col_offset=classdef.col_offset,
             )
             yield funcdef, None, transaction
